@@ -439,6 +439,9 @@ func execScope(input string) Result {
 		id := t.ids[w]
 		u := w.GetURL()
 		kinds["url:"+classifyRaw(t.orig[w])] = true
+		if len(t.orig[w]) > 2048 {
+			kinds["url:longer-than-2KiB"] = true
+		}
 		scopeTotals["nodes"]++
 		if !t.normalised(w) {
 			nvs = append(nvs, fmt.Sprintf("(%d, NVErr)", id))
